@@ -5,7 +5,7 @@
    PROVED (Mps/MpoApply.v, over any commutative ring): the product MPO.MPS built site by site (Kronecker product of the two bond spaces, the
    shared physical index summed) has, at every configuration sigma, the amplitude  sum over sigma' of O(sigma, sigma') * psi(sigma')  -- for EVERY
    chain length, all bond-dimension profiles of both factors and every local dimension (mixed-product property of the Kronecker product carried
-   through the transfer-vector recursion).  MPO.MPO is the same statement with the second physical index of the right factor carried along.
+   through the transfer-vector recursion).  MPO.MPO is the same statement with the second physical index of the right factor carried along (C06_mpo_times_mpo).
    NOT proved: conj/transpose/reverse, product states, overlaps with environments:
    exact correspondence with NumPy on integer-valued MPS/MPO of every operator family and symmetry (tools/checks/C06.py); mps_from_tensor,
    zipper and variational compression (SVD inside) are compared with tolerance. *)
@@ -59,6 +59,15 @@ Theorem C06_mpo_times_mps d (c : list (MpoApply.psite R)) dwl dal uW uA sigma k 
   = MpoApply.sumconf R r0 radd d (length c)
       (fun sp => MpoApply.kronv R rmul (MpoApply.lastda R dal c) (MpoApply.transW R r0 radd rmul dwl uW c sigma sp) (MpoApply.transA R r0 radd rmul dal uA c sp) k).
 Proof. exact (MpoApply.product_amplitude R r0 r1 radd rmul rsub ropp Rth d c dwl dal uW uA sigma k). Qed.
+(* MPO . MPO: entry (sigma, sigma') of the product chain = sum over the middle configurations tau of O1(sigma, tau) * O2(tau, sigma') *)
+Theorem C06_mpo_times_mpo d (c : list (MpoApply.osite2 R)) dwl dal u1 u2 sigma sigma' k :
+  (0 < dal)%nat -> (forall s, In s c -> (0 < MpoApply.dw2 R s)%nat) -> length sigma = length c -> length sigma' = length c ->
+  MpoApply.propP R r0 radd rmul d dwl dal (MpoApply.kronv R rmul dal u1 u2) (MpoApply.zip_sites R c sigma') sigma k
+  = MpoApply.sumconf R r0 radd d (length c)
+      (fun tau => MpoApply.kronv R rmul (MpoApply.lastda R dal (MpoApply.zip_sites R c sigma'))
+                    (MpoApply.transW R r0 radd rmul dwl u1 (MpoApply.zip_sites R c sigma') sigma tau)
+                    (MpoApply.transA R r0 radd rmul dal u2 (MpoApply.zip_sites R c sigma') tau) k).
+Proof. exact (MpoApply.mpo_product_amplitude R r0 r1 radd rmul rsub ropp Rth d c dwl dal u1 u2 sigma sigma' k). Qed.
 End Product.
 
 (* instance used by the correspondence check: integers *)
@@ -78,5 +87,6 @@ Print Assumptions C06_add.
 Print Assumptions C06_kron_mixed.
 Print Assumptions C06_mpo_times_mps.
 Print Assumptions C06_mpo_times_mps_Z.
+Print Assumptions C06_mpo_times_mpo.
 Print Assumptions C06_block_diagonal.
 Print Assumptions C06_column_stack.
